@@ -617,6 +617,8 @@ class SeqAbstraction:
                 self.elem[ss] = self.sort(seq_elem_sort(t.sort))
                 return name
             return f"(as {t.args[0]} {self.sort(t.sort)})"
+        if op == "#constarr":
+            return f"((as const {self.sort(t.sort)}) {self.render(t.args[0])})"
         if op.startswith("seq."):
             seqsort = t.sort if op == "seq.unit" else t.args[0].sort
             ss = self.sort(seqsort)
